@@ -23,7 +23,12 @@ from .. import known
 ID = 'C20'
 LEVEL = 'exploration'
 RULE = (
-    'Hypothesis, field level (~94% of cases): REAL*4 fields ny 1-8 x nx '
+    'Hypothesis, field level (~94% of cases): fields handed to pack2d as '
+    'float32 or float64 arrays (family offset64: float64 values that are '
+    'not float32-representable, offset + gradient finer than the float32 '
+    'spacing); the format stores REAL*4, so VAR1, the bound, the byte '
+    'formula and the wrap test are all taken relative to the float32 image '
+    'of the input; ny 1-8 x nx '
     '2-16 (|x| <= 1e30, largest neighbour difference 0 or >= 1e-30) from '
     'families random (k/1000 x 10^e, e -27..30), offset (large base + '
     'small variation), constant, integer multiples of 2^k, maxdiff (largest '
@@ -49,7 +54,8 @@ RULE = (
     'compare of REAL*4 values); first element equal (-0.0 == 0.0).  An '
     'enumeration of the carry construction (k -3..3 x f x signs x D variant '
     'x row/column) is replayed in every run.  File level (~6%): lat-lon ARL files (GRIDX 0) nx, ny '
-    '17-24, 1-4 times (gaps 1..744 h: sub-daily, one day, several days, '
+    '17-24 (a tenth of them, and two enumerated files, with >= 1000 cells on '
+    'one side and 3-5 on the other: 1003x4, 4x1003, 3x2001, ...), 1-4 times (gaps 1..744 h: sub-daily, one day, several days, '
     'month/year ends), 2-4 levels (sigma / pressure / '
     'height text), 1-3 surface and 1-3 upper variables (per-level lists: '
     'uniform, fewer names aloft, a name appearing only on a higher level - '
@@ -111,6 +117,25 @@ def field_offset(draw):
     vals = [_f(base * (1.0 + rel * v)) for v in m]
     return dict(kind='field', family='offset', ny=ny, nx=nx,
                 rows=[vals[j * nx:(j + 1) * nx] for j in range(ny)])
+
+
+@st.composite
+def field_offset64(draw):
+    """float64 input that is not float32-representable: a large offset
+    plus gradients finer than the float32 spacing at that offset, so that
+    the float32 image moves in jumps the float64 array does not have"""
+    ny = draw(st.integers(1, 8))
+    nx = draw(st.integers(2, 16))
+    base = draw(st.sampled_from([101325.0, 273.15, 1.0e6, 5.0e4, -8.5e3,
+                                 1.0 + 1e-9]))
+    ulp = abs(A.f32(base)) * 2.0 ** -23
+    gx = ulp * draw(st.sampled_from([0.1, 0.25, 0.4, 0.6, 1.3, 0.0]))
+    gy = ulp * draw(st.sampled_from([0.2, 0.19, 0.55, 1.0, 0.0]))
+    if gx == 0 and gy == 0:
+        gx = 2e-3
+    rows = [[base + gx * i + gy * j for i in range(nx)] for j in range(ny)]
+    return dict(kind='field', family='offset64', ny=ny, nx=nx, rows=rows,
+                dtype='f8')
 
 
 @st.composite
@@ -278,18 +303,38 @@ TIMES0 = [[99, 12, 31, 21], [0, 2, 28, 18], [4, 2, 29, 0], [20, 6, 15, 12],
 GAPS = [1, 3, 6, 12, 24, 24, 27, 48, 72, 240, 744]
 
 
+BIGGRIDS = [[1003, 4], [4, 1003], [1000, 5], [3, 2001], [2001, 3],
+            [999, 4], [5, 1999]]
+
+
 @st.composite
 def file_case(draw):
-    nt = draw(st.sampled_from([1, 2, 2, 3, 3, 4]))
+    # a small share of grids with >= 1000 cells on one side (the thousands
+    # of NX / NY travel in the two grid characters of the label)
+    big = draw(st.sampled_from([False] * 9 + [True]))
+    if big:
+        spec = draw(file_case_inner(nts=[1, 2], modes=['uniform'],
+                                    nlevs=[2], nsfcs=[1], nupps=[1, 2]))
+        spec['nx'], spec['ny'] = draw(st.sampled_from(BIGGRIDS))
+        return spec
+    return draw(file_case_inner())
+
+
+@st.composite
+def file_case_inner(draw, nts=(1, 2, 2, 3, 3, 4), modes=None, nlevs=None,
+                    nsfcs=(1, 2, 3), nupps=None):
+    nt = draw(st.sampled_from(list(nts)))
     # per-level variable lists: 'uniform' (same names everywhere), 'fewer'
     # (upper levels drop trailing names, as GDAS/NAM files do), 'late' (a
     # name that first appears on a higher level, possibly above a level that
     # only repeats the names below), any order within a level
-    mode = draw(st.sampled_from(['uniform', 'uniform', 'fewer', 'late',
-                                 'late']))
-    nlev = draw(st.sampled_from([2, 3, 4] if mode == 'uniform' else [3, 4]))
-    nsfc = draw(st.sampled_from([1, 2, 3]))
-    nupp = draw(st.sampled_from([1, 2, 3] if mode == 'uniform' else [2, 3]))
+    mode = draw(st.sampled_from(modes or ['uniform', 'uniform', 'fewer',
+                                          'late', 'late']))
+    nlev = draw(st.sampled_from(nlevs or (
+        [2, 3, 4] if mode == 'uniform' else [3, 4])))
+    nsfc = draw(st.sampled_from(list(nsfcs)))
+    nupp = draw(st.sampled_from(nupps or (
+        [1, 2, 3] if mode == 'uniform' else [2, 3])))
     sfc = list(draw(st.permutations(SFC)))[:nsfc]
     upp = list(draw(st.permutations(UPP)))[:nupp]
     levels = draw(st.sampled_from(LEVELSETS))[:nlev]
@@ -355,12 +400,22 @@ def strategy(tier):
     fld = st.one_of(field_random(), field_random(), field_offset(),
                     field_constant(), field_ints(), field_maxdiff(),
                     field_maxdiff(), field_carry(), field_carry(),
-                    field_ksum255())
+                    field_ksum255(), field_offset64())
+
+    def with_dtype(args):
+        spec, f8 = args
+        if spec.get('kind') == 'field' and 'dtype' not in spec:
+            spec = dict(spec, dtype='f8' if f8 else 'f4')
+        return spec
+    fld = st.tuples(fld, st.sampled_from([False, False, True])).map(
+        with_dtype)
     return st.sampled_from(list(range(16))).flatmap(
         lambda n: file_case() if n == 0 else fld)
 
 
 def enumerate_cases(tier):
+    for nx, ny in ([1003, 4], [4, 1003]):
+        yield _big_file(nx, ny)
     ks = range(-3, 4) if tier == 'quick' else range(-12, 13)
     for k in ks:
         for variant in ('below', 'below2', 'at', 'above'):
@@ -378,6 +433,14 @@ def enumerate_cases(tier):
                                    ny=4, nx=2, rows=[[v, v] for v in seq])
 
 
+def _big_file(nx, ny):
+    return dict(kind='file', nx=nx, ny=ny, times=[[99, 12, 31, 21, 0]],
+                levels=['   0.0', '1000.0'], sfc=['PRSS'], upper=['TEMP'],
+                uplists=[['TEMP']], vsys=2, synch=[20.0, -100.0],
+                delta=[0.25, 0.25],
+                fields=[[101325.0, 2500.0, 1], [273.0, 30.0, 2]])
+
+
 # ------------------------------------------------------------------ known
 def _no_headroom(spec):
     """input class of C20-pack-no-headroom: the largest neighbour
@@ -387,7 +450,7 @@ def _no_headroom(spec):
     and NEXP = log2(RMAX): exactly 128 steps)"""
     if spec.get('kind') == 'file':
         return False
-    rmax = A.rmax_of(spec['rows'])
+    rmax = A.rmax_of([[A.f32(v) for v in row] for row in spec['rows']])
     if rmax == 0:
         return False
     m, e = math.frexp(rmax)
@@ -400,6 +463,11 @@ known.register(
         (f.clause == 'byte-wrap' and f.klass == 'no-headroom') or
         (f.clause == 'bound' and f.klass in ('wrap+no-headroom',
                                              'no-headroom<=1.5'))))
+known.register(
+    'C20-writer-nx-over-999',
+    lambda spec, f: spec.get('kind') == 'file' and
+    (spec['nx'] >= 1000 or spec['ny'] >= 1000) and
+    f.clause == 'written-layout')
 known.register(
     'C20-writer-laykeys',
     lambda spec, f: spec.get('kind') == 'file' and f.clause == 'writer' and
@@ -416,12 +484,20 @@ def near_pow2(d):
 
 def check_field(spec):
     r = Result()
-    rows = spec['rows']
-    ny, nx = len(rows), len(rows[0])
-    for row in rows:
+    rows_in = spec['rows']
+    ny, nx = len(rows_in), len(rows_in[0])
+    for row in rows_in:
         for v in row:
-            if not math.isfinite(v) or A.f32(v) != v:
+            if not math.isfinite(v):
                 raise Reject()
+    # the format stores REAL*4: everything is judged relative to the
+    # float32 image of the caller's (possibly float64) array
+    rows = [[A.f32(v) for v in row] for row in rows_in]
+    if any(not math.isfinite(v) for row in rows for v in row):
+        raise Reject()
+    dtype = spec.get('dtype', 'f4')
+    inexact = any(a != b for ra, rb in zip(rows, rows_in)
+                  for a, b in zip(ra, rb))
     rmax = A.rmax_of(rows)
     # stated domain: magnitudes 1e-30..1e30 (of the values and of the
     # largest neighbour difference that fixes the scaling)
@@ -445,8 +521,12 @@ def check_field(spec):
         r.label('extreme-magnitude')
     r.nontrivial = bool(np2 or nx >= 8)
     from PseudoNetCDF.noaafiles._arl import pack2d, unpack
+    r.label('input:' + dtype)
+    if inexact:
+        r.label('input-not-float32-exact')
     x = np.array(rows, dtype='f4')
-    ok, res = guard(r, 'pack-raises', lambda: pack2d(x.copy()))
+    xin = np.array(rows_in, dtype=dtype)
+    ok, res = guard(r, 'pack-raises', lambda: pack2d(xin.copy()))
     if not ok:
         return r
     cvar, prec, nexp, var1, ksum = res
@@ -592,6 +672,8 @@ def check_file(spec):
     r.nontrivial = bool(nt >= 2 and nlev >= 3)
     if nt >= 2 and nlev >= 3:
         r.label('multi-time-multi-level')
+    if spec['nx'] >= 1000 or spec['ny'] >= 1000:
+        r.label('grid>=1000:%dx%d' % (spec['nx'] // 1000, spec['ny'] // 1000))
     ul = upper_lists(spec)
     uniform = all(u == ul[0] for u in ul)
     if not uniform:
